@@ -107,6 +107,8 @@ def check_doc_table(ctx, spec_docs):
     for i, (frag, chunks) in enumerate(DOCS):
         if not ok:
             break
+        if frag in lc.BAD_CONTAINERS:
+            continue          # a rejected call has no reads; what the code does with it is judged by the history replay
         real = record_reads(frag, chunks)
         sd = spec_docs[i]
         sreads = [list(r) for r in sd["reads"]]
